@@ -82,7 +82,9 @@ func checkPairDistance(measure, q, t, printed string) (string, bool) {
 			return "", true
 		}
 		v, err := strconv.ParseFloat(printed, 64)
-		if err != nil || math.IsNaN(v) || math.Abs(v-d) > 1e-9+1e-7*math.Abs(d) {
+		// the printed value has 9 decimals: it is within half a unit of the last place of the
+		// definition (plus the float64 noise of evaluating the formula in another order)
+		if err != nil || math.IsNaN(v) || math.Abs(v-d) > 6e-10+1e-12*math.Abs(d) {
 			return fmt.Sprintf("tn93 distance printed %s, model %.12f (P1=%d P2=%d Tv=%d L=%d)", printed, d, c.P1, c.P2, c.Tv, c.Res), false
 		}
 	}
